@@ -26,8 +26,9 @@ ANCHOR_FILES = ["quantem/core/datastructures/dataset.py"]
 RULE = (
     "seeded matrix over op (bin, resample laws/linearity/identity/up-down, pad-crop, and histories of 3-6 in-place/copying bin/pad/crop/resample calls on ONE object, "
     "every step judged against the state read through the public attributes just before it) x ndim 1..4 x dtype kind (int/float/complex); "
-    "plus a fixed menu of big arrays (> 2**22 and one > 2**24 elements; int16/uint8/float32/complex64; axis subsets of stacks and all axes) judged by mean, "
-    "centre, extent, identity, linearity, exact block sums and 'frame k of the big result == that frame processed as a small stack'; "
+    "plus a fixed menu of 20 big arrays (> 2**22 / > 2**24 elements / > 16 MiB; bool/uint8/uint16/int16/int32/float32/complex64 with full-range values; resample, bin with both "
+    "reducers, pad->crop and crop; axis subsets of stacks incl. axis 0 and all axes; copying and in place) judged by mean, centre, extent, identity, linearity, exact block sums, "
+    "totals in Python ints and 'frame / sub-block of the big result == the same frame / sub-block processed as a small dataset'; "
     "shapes odd/even/length-1, axis subsets spelled None / int / tuple in any order / negative indices, factors incl. non-dividing and "
     "> length/2, reducers, out shapes x0.3..x3 incl. odd<->even, both copying and in-place variants. non-trivial = non-constant data and "
     "(some bin factor > 1 | some output length != input length | some pad width > 0); distinct = (op, ndim, parity pattern of the shape, "
@@ -42,6 +43,12 @@ ASSUMPTIONS = [
     "up->down round trips use signals whose Nyquist coefficient is zero on every even resampled axis (x[n] + x[n-1] construction)",
     "an axis may be spelled with a negative index (numpy convention); duplicated or out-of-range axes are not generated",
     "with factors= the output length must be a rounding of length*factor (ties not judged)",
+    "big cases (> 2**22 / 2**24 elements, or > 16 MiB with a 20 % margin so that the remainder-trimmed array is still above it) skip the explicit-DFT "
+    "oracle; bin is still compared block by block with a vectorised strided oracle accumulating in int64 (exact) / float64, totals are compared as "
+    "Python integers, and a sub-block of whole bins (resample: a frame) processed as a small dataset of its own must give the same numbers",
+    "big bin / pad / crop inputs use the full range of uint8 / uint16 / int16 / int32 (block sums leave the input dtype's range; int64 accumulators "
+    "cannot overflow: |v| < 2**31, block volume <= 49) and bool masks (bin of a mask counts the True pixels; bool is used for bin / pad / crop only); "
+    "the result dtype of an integer sum is not prescribed beyond being an integer type that holds the exact sums",
 ]
 BUDGET = {"quick": {"soft_s": 100}, "thorough": {"soft_s": 560}}
 MIN_EVALUATIONS = {"quick": 5000, "thorough": 100000}
@@ -727,25 +734,43 @@ def _case_history(spec, idx, ctx):
 # ------------------------------------------------------------------------------------------------
 # big arrays: > 2**22 (one ~2**24) elements, judged by the cheap laws only (no O(size x length) explicit DFT)
 
-# (op, ndim, axes operated on, dtype, in place, size class)
+# (op, ndim, axes operated on, dtype, in place, size class[, reducer])
+# size classes: e22 / e24 = more than 2**22 / 2**24 elements; b24 = more than 2**24 bytes (16 MiB) and more than 2**22 elements
 BIG_MENU = [
-    ("rs_laws", 3, (1, 2), "int16", False, 22),
-    ("rs_laws", 4, (2, 3), "uint8", True, 22),
-    ("rs_laws", 3, (1, 2), "uint8", False, 24),
-    ("rs_laws", 2, None, "int16", False, 22),
-    ("rs_laws", 3, (0,), "float32", True, 22),
-    ("rs_laws", 4, (1, 3), "complex64", False, 22),
-    ("rs_linear", 3, (1, 2), "int16", False, 22),
-    ("rs_identity", 3, (1, 2), "int16", True, 22),
-    ("bin", 3, (1, 2), "int16", False, 22),
-    ("bin", 4, (0, 3), "uint8", True, 22),
-    ("padcrop", 3, (0, 2), "uint8", False, 22),
+    ("rs_laws", 3, (1, 2), "int16", False, "e22"),
+    ("rs_laws", 4, (2, 3), "uint8", True, "e22"),
+    ("rs_laws", 3, (1, 2), "uint8", False, "e24"),
+    ("rs_laws", 2, None, "int16", False, "e22"),
+    ("rs_laws", 3, (0,), "float32", True, "e22"),
+    ("rs_laws", 4, (1, 3), "complex64", False, "e22"),
+    ("rs_linear", 3, (1, 2), "int16", False, "e22"),
+    ("rs_identity", 3, (1, 2), "int16", True, "e22"),
+    ("bin", 3, (1, 2), "int16", False, "e22"),
+    ("bin", 4, (0, 3), "uint8", True, "e22"),
+    ("bin", 4, (2, 3), "uint16", False, "b24", "sum"),
+    ("bin", 3, (0, 1), "uint8", True, "b24", "mean"),
+    ("bin", 3, None, "int32", False, "b24", "sum"),
+    ("bin", 3, (1, 2), "bool", False, "b24", "sum"),
+    ("bin", 3, (0,), "int16", True, "b24", "mean"),
+    ("bin", 3, (1, 2), "float32", False, "b24", "sum"),
+    ("bin", 4, (1, 2), "uint16", True, "b24", "mean"),
+    ("padcrop", 3, (0, 2), "uint8", False, "e22"),
+    ("padcrop", 3, (1,), "uint16", True, "b24"),
+    ("padcrop", 4, (0, 3), "bool", False, "b24"),
 ]
 
 
-def _big_shape(rng, ndim, axes, size_class):
-    """frames of 200..330 pixels a side, as many of them as needed to exceed 2**size_class elements"""
-    target = (1 << size_class) + 1
+def _big_target(size_class, dtype):
+    if size_class == "e22":
+        return (1 << 22) + 1
+    if size_class == "e24":
+        return (1 << 24) + 1
+    # 20 % above the byte threshold: what is left after bin() drops the remainders must still be above it
+    return int(1.2 * max(1 << 22, (1 << 24) // np.dtype(dtype).itemsize)) + 1
+
+
+def _big_shape(rng, ndim, axes, target):
+    """frames of 200..330 pixels a side, as many of them as needed to reach `target` elements"""
     if ndim == 2:
         h = int(rng.integers(2049, 2100))
         return (h, target // h + 1 + int(rng.integers(0, 40)))
@@ -769,48 +794,57 @@ def _big_shape(rng, ndim, axes, size_class):
     return tuple(shape)
 
 
-def _big_data(rng, shape, dtype):
+def _big_data(rng, shape, dtype, full=False):
+    """full=True: values over the whole range of the dtype, so that block sums leave the range of every narrow integer type"""
     dt = np.dtype(dtype)
+    if dt.kind == "b":
+        return rng.random(size=shape, dtype=np.float32) < 0.6
     if dt.kind in "iu":
         info = np.iinfo(dt)
-        return rng.integers(max(info.min, -2000), min(info.max, 2000) + 1, size=shape, dtype=np.int64).astype(dt)
+        lo, hi = (int(info.min), int(info.max)) if full else (max(info.min, -2000), min(info.max, 2000))
+        if dt.itemsize <= 4:
+            return rng.integers(lo, hi + 1, size=shape, dtype=np.int64 if dt.itemsize == 4 else np.int32).astype(dt)
+        return rng.integers(max(lo, -(2**40)), min(hi, 2**40) + 1, size=shape, dtype=np.int64)
     if dt.kind == "f":
         return rng.standard_normal(size=shape, dtype=np.float32).astype(dt) * dt.type(50) + dt.type(10)
     return (rng.standard_normal(size=shape, dtype=np.float32) + 1j * rng.standard_normal(size=shape, dtype=np.float32)).astype(dt) * dt.type(20)
 
 
 def _block_sum_fast(a, a2f):
-    """vectorised strided block sums in int64 / float64 / complex128 (independent of the library's reshape-and-sum)"""
-    out = a.astype(np.int64 if a.dtype.kind in "iu" else (np.complex128 if a.dtype.kind == "c" else np.float64))
+    """vectorised strided block sums accumulated in int64 / float64 / complex128 (independent of the library's reshape-and-sum)"""
+    acc_dt = np.int64 if a.dtype.kind in "iub" else (np.complex128 if a.dtype.kind == "c" else np.float64)
+    out = a
     for ax, f in a2f.items():
         nb = out.shape[ax] // f
-        acc = _take(out, slice(0, nb * f, f), ax).copy()
+        acc = _take(out, slice(0, nb * f, f), ax).astype(acc_dt)
         for k in range(1, f):
             acc += _take(out, slice(k, nb * f, f), ax)
         out = acc
-    return out
+    return out.astype(acc_dt, copy=False)
 
 
 def _case_big(spec, idx, ctx):
     rng = ctx.rng(idx)
-    op, ndim, axes_t, dtype, inplace, size_class = BIG_MENU[spec["variant"]]
-    shape = _big_shape(rng, ndim, axes_t, size_class)
+    entry = BIG_MENU[spec["variant"]]
+    op, ndim, axes_t, dtype, inplace, size_class = entry[:6]
+    target = _big_target(size_class, dtype)
+    shape = _big_shape(rng, ndim, axes_t, target)
     axes = list(range(ndim)) if axes_t is None else list(axes_t)
     prec = G.precision(dtype)
-    dkind = {"i": "int", "u": "int", "f": "float", "c": "complex"}[np.dtype(dtype).kind]
-    fields = {"op": "big_" + op, "dkind": dkind, "prec": prec, "ndim": ndim, "axes_form": "all" if axes_t is None else "subset", "inplace": inplace, "size_class": "2^%d" % size_class}
+    dkind = {"i": "int", "u": "int", "f": "float", "c": "complex", "b": "bool"}[np.dtype(dtype).kind]
+    fields = {"op": "big_" + op, "dkind": dkind, "dtype": dtype, "prec": prec, "ndim": ndim, "axes_form": "all" if axes_t is None else "subset", "inplace": inplace, "size_class": size_class}
     Dataset = ctx.state["cls"][0]
     cal = G.rand_calibration(rng, ndim, form="float_array")
-    a = _big_data(rng, shape, dtype)
+    a = _big_data(rng, shape, dtype, full=not op.startswith("rs_"))
     size = int(np.prod(shape))
-    if size <= (1 << size_class):
+    if size < target or (size_class == "b24" and a.nbytes <= (1 << 24)):
         from vf.core import HarnessError
 
         raise HarnessError("big case below its size class: %s" % (shape,))
     kw_axes = {} if axes_t is None else {"axes": axes_t}
     rest = [i for i in range(ndim) if i not in axes]
     desc = {}
-    what = lambda: "big %s shape=%s (%d elements) dtype=%s axes=%r %r inplace=%s" % (op, shape, size, dtype, axes_t, desc, inplace)
+    what = lambda: "big %s shape=%s (%d elements, %.1f MiB) dtype=%s axes=%r %r inplace=%s" % (op, shape, size, a.nbytes / 2.0**20, dtype, axes_t, desc, inplace)
 
     def make(arr):
         return Dataset.from_array(arr, name="c06big", origin=cal[0], sampling=cal[1], units=cal[2])
@@ -884,7 +918,7 @@ def _case_big(spec, idx, ctx):
             ctx.close(lin / (abs(ca) * sc + abs(cb) * _scale(b)), tolc, _m("rs_linear", prec), lambda: "%s: R(2X-Y) != 2R(X)-R(Y)" % what(), **fields)
     elif op == "bin":
         factors = [int(rng.integers(2, 8)) for _ in axes]
-        reducer = "sum" if rng.random() < 0.6 else "mean"
+        reducer = entry[6] if len(entry) > 6 else ("sum" if rng.random() < 0.6 else "mean")
         desc.update(factors=tuple(factors), reducer=reducer)
         fields["reducer"] = reducer
         a2f = dict(zip(axes, factors))
@@ -904,14 +938,41 @@ def _case_big(spec, idx, ctx):
         ref = _block_sum_fast(a, a2f)
         vol = int(np.prod(factors))
         got = np.asarray(res.array)
-        if a.dtype.kind in "iu" and reducer == "sum":
-            same = bool(np.array_equal(got.astype(np.int64), ref)) and got.dtype.kind in "iu"
-            ctx.close(0.0 if same else 1.0, 0.0, "bin_block_values", lambda: "%s: integer block sums differ from the exact sums" % what(), **fields)
-            ctx.close(0.0 if int(got.sum(dtype=np.int64)) == int(ref.sum()) else 1.0, 0.0, "bin_count_conservation", lambda: "%s: sum(binned) != sum(covered region)" % what(), **fields)
+        exact = a.dtype.kind in "iub"
+        ctx.observe(block_sum_range=[int(ref.min()), int(ref.max())] if exact else None, result_dtype=str(got.dtype))
+        if exact and reducer == "sum":
+            same = got.dtype.kind in "iu" and bool(np.array_equal(got.astype(np.int64), ref))
+            ctx.close(0.0 if same else 1.0, 0.0, "bin_block_values", lambda: "%s: integer block sums (result dtype %s) differ from the exact sums; exact range [%d, %d], result range [%s, %s]" % (what(), got.dtype, int(ref.min()), int(ref.max()), got.min(), got.max()), **fields)
+            # counts over the covered region, in Python integers
+            t_got, t_ref = int(np.sum(got, dtype=np.int64)) if got.dtype.kind in "iub" else float(np.sum(got)), int(ref.sum())
+            ctx.close(0.0 if t_got == t_ref else 1.0, 0.0, "bin_count_conservation", lambda: "%s: sum(binned)=%r sum(covered region)=%r" % (what(), t_got, t_ref), **fields)
         else:
             exp = ref / vol if reducer == "mean" else ref
             sc = _scale(a) * (vol if reducer == "sum" else 1)
             ctx.close(float(np.max(np.abs(got - exp))) / sc, TOL[prec], _m("bin_block_values", prec), lambda: "%s: block %s differs from the block oracle" % (what(), reducer), **fields)
+            t_got = complex(np.sum(got, dtype=np.complex128)) * (vol if reducer == "mean" else 1)
+            t_ref = complex(np.sum(ref, dtype=np.complex128)) if not exact else complex(int(ref.sum()))
+            ctx.close(abs(t_got - t_ref) / (_scale(a) * max(1, ref.size * vol)), TOL[prec], _m("bin_count_conservation", prec), lambda: "%s: sum(binned)=%r sum(covered region)=%r" % (what(), t_got, t_ref), **fields)
+        # a small sub-block of whole bins, binned as a small dataset of its own, must give the same numbers
+        worst = 0.0
+        for frac in (0.0, 0.5, 1.0):
+            sel_in, sel_out = [], []
+            for i in range(ndim):
+                f = a2f.get(i, 1)
+                nb = exp_shape[i]
+                w = min(nb, 6)
+                j0 = int(round(frac * (nb - w)))
+                sel_out.append(slice(j0, j0 + w))
+                sel_in.append(slice(j0 * f, (j0 + w) * f))
+            small = make(a[tuple(sel_in)].copy()).bin(tuple(factors), reducer=reducer, **kw_axes)
+            sa = np.asarray(small.array)
+            gs = got[tuple(sel_out)]
+            cdt = np.complex128 if a.dtype.kind == "c" else np.float64
+            d = float(np.max(np.abs(gs.astype(cdt) - sa.astype(cdt)))) if gs.shape == sa.shape else float("inf")
+            worst = max(worst, d)
+            ctx.count("big_frames_compared")
+        sc = _scale(a) * (vol if reducer == "sum" else 1)
+        ctx.close(worst / sc, 0.0 if exact else TOL[prec], _m("big_frame_consistency", prec), lambda: "%s: a sub-block of the big result differs from the same sub-block binned as a small dataset" % what(), **fields)
     else:  # padcrop
         out_shape = list(shape)
         for ax in axes:
@@ -928,7 +989,19 @@ def _case_big(spec, idx, ctx):
         back = padded.crop(cw)
         ba = np.asarray(back.array)
         ctx.check(ba.shape == a.shape and ba.dtype == a.dtype and np.array_equal(ba, a), "padcrop_roundtrip", lambda: "%s: crop %r returned shape %s" % (what(), cw, ba.shape), **fields)
-    ctx.nontrivial(("big", op, ndim, dtype, fields["axes_form"], size_class), True)
+        # a plain crop of the big array along the same axes is the [min, max) block
+        sl = [slice(None)] * ndim
+        cw2 = []
+        for ax in axes:
+            lo = int(rng.integers(0, shape[ax] // 2))
+            hi = int(rng.integers(lo + 1, shape[ax] + 1))
+            sl[ax] = slice(lo, hi)
+            cw2.append((lo, hi))
+        src = make(a.copy() if inplace else a)
+        cr = run(src, lambda d, ip: d.crop(tuple(cw2), axes=tuple(axes), modify_in_place=ip))
+        ca = np.asarray(cr.array)
+        ctx.check(ca.shape == a[tuple(sl)].shape and ca.dtype == a.dtype and np.array_equal(ca, a[tuple(sl)]), "crop_slice", lambda: "%s: crop %r is not the [min, max) block" % (what(), cw2), **fields)
+    ctx.nontrivial(("big", op, ndim, dtype, repr(axes_t), size_class, inplace), True)
     ctx.observe(op=op, shape=shape, elements=size, dtype=dtype, axes=repr(axes_t), inplace=inplace, **{k: repr(v) for k, v in desc.items()})
 
 
